@@ -48,6 +48,33 @@ type hubRun struct {
 	msgFrom  map[int]int // author conn id (0 = server)
 	panics   []string
 	viol     [][2]string
+	wedged   string // operation that never came back: the hub is deadlocked
+}
+
+const hubOpTimeout = 30 * time.Second
+
+// guarded runs one call into the hub on its own goroutine and waits for it, so
+// that a panic inside the hub is recorded and a call that never comes back (a
+// lock left held) is reported as a deadlock instead of hanging the harness.
+func (r *hubRun) guarded(name string, f func()) bool {
+	if r.wedged != "" {
+		return false
+	}
+	done := make(chan any, 1)
+	go func() {
+		defer func() { done <- recover() }()
+		f()
+	}()
+	select {
+	case p := <-done:
+		if p != nil {
+			r.panics = append(r.panics, fmt.Sprintf("%s: %v", name, p))
+		}
+		return true
+	case <-time.After(hubOpTimeout):
+		r.wedged = name
+		return false
+	}
 }
 
 func sname(s int) string { return fmt.Sprintf("s%d", s) }
